@@ -247,12 +247,18 @@ def same(a, b):
 def oracle_case(case, doc=None):
     """returns a failure dict or None.  `doc`: the answer of the Lean documentation semantics for
     this case when the caller already has it (check 'doc')"""
-    lang, nodes, data, check = case['lang'], case['nodes'], case['data'], case['check']
-
     def bad(what, expected, observed, **kw):
         d = {'case': case, 'what': what, 'expected': expected, 'observed': observed}
         d.update(kw)
         return d
+
+    if case['check'] == 'raw':
+        # a template given by its source (shapes the AST cannot express) with the documented output
+        got = real_raw(case['lang'], [['raw', case['source']]], case['data'])
+        if got != case['expected']:
+            return bad(case.get('what', 'documented output'), case['expected'], got)
+        return None
+    lang, nodes, data, check = case['lang'], case['nodes'], case['data'], case['check']
 
     base = real(lang, nodes, data)
     if check == 'elemform':
@@ -299,15 +305,17 @@ def oracle_case(case, doc=None):
         if base[0] != 'ok':
             return None
         defs = defined_names(nodes)
-        for name in sorted(set(G.VARS + ['x', 'y', 'it', 'p', 'z', 'w', 'xs']) - defs):
-            probe = [['raw', "[${defined('%s')}|${%s}]" % (name, name)]]
-            alone = real_raw(lang, probe, data)
-            both = real_raw(lang, nodes + probe, data)
-            if alone[0] != 'ok' or both[0] != 'ok':
-                return bad('probe of %s after the template renders' % name, alone, both)
-            exp = G.norm_events_merge(base[1] + alone[1])
-            if both[1] != exp:
-                return bad('after the template the variable %s is what it was before it' % name, exp, both[1])
+        names = sorted(set(G.VARS + ['it', 'p']) - defs)
+        # one probe for all names: is it defined, and what does it render as
+        probe = [['raw', ''.join("[${defined('%s')}|${%s}]" % (nm, nm) for nm in names)]]
+        alone = real_raw(lang, probe, data)
+        both = real_raw(lang, nodes + probe, data)
+        if alone[0] != 'ok' or both[0] != 'ok':
+            return bad('probe of %s after the template renders' % names, alone, both)
+        exp = G.norm_events_merge(base[1] + alone[1])
+        if both[1] != exp:
+            return bad('after the template every variable is what it was before it (loop, with and '
+                       'parameter names are not visible, outer values are kept)', exp, both[1])
     elif check == 'doc':
         if doc is None:
             doc = doc_answers([case])[0]
@@ -382,7 +390,7 @@ def impl_answers(cases):
 
 ERRMAP = {'TypeError': 'type', 'IndexError': 'index', 'KeyError': 'key', 'UndefinedError': 'undefined',
           'TemplateRuntimeError': 'runtime', 'AttributeError': 'attribute', 'ValueError': 'value',
-          'RuntimeError': 'stopiter'}
+          'RuntimeError': 'genstop'}
 
 
 # --------------------------------------------------------------------------
@@ -495,6 +503,10 @@ def shard(arg):
             else:
                 f = oracle_case(case)
             res.count('check:' + check)
+            if check in ('elemform', 'replace') and {'elemform': t_elem_form, 'replace': t_replace}[check](c['nodes']) != c['nodes']:
+                res.count('applied:' + check)
+            elif check in ('for', 'if', 'with', 'choose') and t_toplevel(c['nodes'], c['data'], check)[1] > 0:
+                res.count('applied:' + check)
             if f:
                 res.failures.append(f)
         if use_model:
